@@ -77,6 +77,11 @@ inductive RecvRes (ω : Type) where
   | nothing (w : ω)               -- timeout (`std::nullopt`)
   | exn (e : Exn) (w : ω)
 
+def RecvRes.world {ω : Type} : RecvRes ω → ω
+  | .got _ w => w
+  | .nothing w => w
+  | .exn _ w => w
+
 variable {ω : Type}
 
 /-- `SendNow`: one `send`; `< 0` => system_error, `0` on a non-empty buffer => logic_error -/
@@ -124,22 +129,21 @@ def receive (W : World ω) (w : ω) (n : Nat) (timeout : Int) : RecvRes ω :=
   | (true, w') => recvNow W w' n
 
 /-- `SendAll`: `do { (void)WaitWritable(-1); sent = SendNow(rest); rest.remove_prefix(sent); } while(!rest.empty())`.
-`acc` = bytes accepted before this iteration. -/
+`acc` = bytes accepted before this iteration.  (The last branch is unreachable - `SendNow` either throws or
+accepts at least one byte of a non-empty buffer, `sendNow_pos` - and only keeps the termination argument local.) -/
 def sendAll (W : World ω) (w : ω) (bs : Bytes) (acc : Nat := 0) : SendRes ω :=
-  let (_, w1) := W.wait w .wr (-1)
-  let r := sendNow W w1 bs
-  match hx : r.exn with
-  | some e => ⟨acc + r.sent, some e, r.w⟩
-  | none =>
-    if hrest : bs.drop r.sent = [] then ⟨acc + r.sent, none, r.w⟩
-    else sendAll W r.w (bs.drop r.sent) (acc + r.sent)
+  let r := sendNow W (W.wait w .wr (-1)).2 bs
+  if r.exn.isSome then ⟨acc + r.sent, r.exn, r.w⟩
+  else if hrest : bs.drop r.sent = [] then ⟨acc + r.sent, none, r.w⟩
+  else if hpos : 0 < r.sent then sendAll W r.w (bs.drop r.sent) (acc + r.sent)
+  else ⟨acc + r.sent, some (.logic "unreachable"), r.w⟩
 termination_by bs.length
 decreasing_by
   have hne : bs ≠ [] := by
     intro h; apply hrest; simp [h]
-  have hp : 0 < (sendNow W w1 bs).sent := sendNow_pos W w1 bs hne hx
   have hl : 0 < bs.length := List.length_pos_iff.mpr hne
-  have hle := sendNow_le W w1 bs
+  have hp : 0 < (sendNow W (W.wait w .wr (-1)).2 bs).sent := hpos
+  have hle := sendNow_le W (W.wait w .wr (-1)).2 bs
   simp only [List.length_drop]
   omega
 
@@ -157,24 +161,24 @@ def remainingMs (deadline now : Int) : Int := if deadline - now < 0 then 0 else 
  while(!rest.empty() && deadline.TimeLeft())`.
 Returns the result and the clock reading of the last `Tick` (for `deadline.Remaining()` afterwards). -/
 def sendSome (W : World ω) (w : ω) (bs : Bytes) (deadline : Int) (tick : Int) (acc : Nat := 0) : SendRes ω × Int :=
-  match W.wait w .wr (remainingMs deadline tick) with
-  | (false, w1) => (⟨acc, none, w1⟩, tick)
-  | (true, w1) =>
-    let tick' := W.now w1
-    let r := sendNow W w1 bs
-    match hx : r.exn with
-    | some e => (⟨acc + r.sent, some e, r.w⟩, tick')
-    | none =>
-      if hrest : bs.drop r.sent = [] then (⟨acc + r.sent, none, r.w⟩, tick')
-      else if tick' < deadline then sendSome W r.w (bs.drop r.sent) deadline tick' (acc + r.sent)
-      else (⟨acc + r.sent, none, r.w⟩, tick')
+  let wt := W.wait w .wr (remainingMs deadline tick)
+  if wt.1 = false then (⟨acc, none, wt.2⟩, tick)
+  else
+    let tick' := W.now wt.2
+    let r := sendNow W wt.2 bs
+    if r.exn.isSome then (⟨acc + r.sent, r.exn, r.w⟩, tick')
+    else if hrest : bs.drop r.sent = [] then (⟨acc + r.sent, none, r.w⟩, tick')
+    else if tick' < deadline then
+      if hpos : 0 < r.sent then sendSome W r.w (bs.drop r.sent) deadline tick' (acc + r.sent)
+      else (⟨acc + r.sent, some (.logic "unreachable"), r.w⟩, tick')
+    else (⟨acc + r.sent, none, r.w⟩, tick')
 termination_by bs.length
 decreasing_by
   have hne : bs ≠ [] := by
     intro h; apply hrest; simp [h]
-  have hp : 0 < (sendNow W w1 bs).sent := sendNow_pos W w1 bs hne hx
   have hl : 0 < bs.length := List.length_pos_iff.mpr hne
-  have hle := sendNow_le W w1 bs
+  have hp : 0 < (sendNow W (W.wait w .wr (remainingMs deadline tick)).2 bs).sent := hpos
+  have hle := sendNow_le W (W.wait w .wr (remainingMs deadline tick)).2 bs
   simp only [List.length_drop]
   omega
 
